@@ -145,12 +145,21 @@ def search_generic(mismatches, outdir):
     for m, a in zip(idx, answers):
         if a.startswith("(unparsable"):
             # the implementation's TFF text is outside the fragment the model's reader accepts: ask tptp4X
-            bad = tptp4x_formula(m["impl"], outdir)
+            bad = tptp4x_formula(m["impl"], outdir, m["request"])
             if bad:
                 return {"input_request": m["request"], "implementation_output": m["impl"], "model_output": m["model"],
                         "origin": m.get("origin"), "tptp4X": bad,
                         "note": "failing input: the implementation's rendering of this formula is not a TPTP formula (rejected by tptp4X, "
                                 "wrapped as one closed tff axiom); the model's rendering of the same formula is accepted"}
+    if cands and cands[0]["request"].startswith("(tptp_formula"):
+        # a rendering the model's reader accepts may still not be TPTP (a variable left unbound): ask tptp4X about the first few
+        for m in idx[:40]:
+            bad = tptp4x_formula(m["impl"], outdir, m["request"])
+            if bad and not tptp4x_formula(m["model"], outdir, m["request"]):
+                return {"input_request": m["request"], "implementation_output": m["impl"], "model_output": m["model"],
+                        "origin": m.get("origin"), "tptp4X": bad,
+                        "note": "failing input: the implementation's rendering of this formula, closed over the free variables of the formula, is rejected by "
+                                "tptp4X; the model's rendering of the same formula is accepted"}
     for m, a in zip(idx, answers):
         if a.startswith("(found"):
             return {"input_request": m["request"], "implementation_output": m["impl"], "model_output": m["model"],
@@ -435,8 +444,44 @@ def search_c09(mismatches, outdir):
 TPTP_VAR = re.compile(r"(?<![A-Za-z0-9_$])_*[A-Z][A-Za-z0-9_]*_([gis])(?![A-Za-z0-9_])")
 
 
-def tptp4x_formula(impl_line, outdir):
-    """tptp4X verdict on one rendered formula, wrapped as a closed axiom; returns the error lines or None if accepted."""
+def source_free_variables(request):
+    """free variables of the formula inside a `(tptp_formula F)` request, as TPTP declarations; None if not applicable"""
+    try:
+        v = sx.parse(request)
+    except Exception:
+        return None
+    if not (isinstance(v, list) and len(v) == 2 and v[0] == "tptp_formula"):
+        return None
+    sorts = {"g": "general", "i": "$int", "s": "symbol"}
+    out = []
+
+    def walk(t, bound):
+        if isinstance(t, list) and t:
+            if t[0] == "Q" and len(t) == 4:
+                b = set(bound)
+                for x in t[2]:
+                    if isinstance(x, list) and len(x) == 2 and isinstance(x[0], tuple):
+                        b.add((x[0][1], x[1]))
+                walk(t[3], b)
+                return
+            if t[0] in ("GV", "iv", "sv") and len(t) == 2 and isinstance(t[1], tuple):
+                k = (t[1][1], {"GV": "g", "iv": "i", "sv": "s"}[t[0]])
+                if k not in bound:
+                    d = f"{k[0]}_{k[1]}: {sorts[k[1]]}"
+                    if d not in out:
+                        out.append(d)
+                return
+            for x in t:
+                walk(x, bound)
+
+    walk(v[1], set())
+    return out
+
+
+def tptp4x_formula(impl_line, outdir, request=None):
+    """tptp4X verdict on one rendered formula, wrapped as a closed axiom; returns the error lines or None if accepted.
+    With the request at hand only the free variables of the SOURCE formula are closed, so that a rendering that loses a
+    binder (a variable left unbound) is rejected; without it every variable of the text is closed."""
     import tempfile
     try:
         v = sx.parse(impl_line)
@@ -446,11 +491,13 @@ def tptp4x_formula(impl_line, outdir):
         return None
     text = v[1]
     sorts = {"g": "general", "i": "$int", "s": "symbol"}
-    vs = []
-    for mo in TPTP_VAR.finditer(text):
-        d = f"{mo.group(0)}: {sorts[mo.group(1)]}"
-        if d not in vs:
-            vs.append(d)
+    vs = source_free_variables(request) if request else None
+    if vs is None:
+        vs = []
+        for mo in TPTP_VAR.finditer(text):
+            d = f"{mo.group(0)}: {sorts[mo.group(1)]}"
+            if d not in vs:
+                vs.append(d)
     closed = f"![{', '.join(vs)}]: ({text})" if vs else text
     with tempfile.TemporaryDirectory(dir=str(outdir)) as tmp:
         f = Path(tmp) / "f.p"
@@ -1048,13 +1095,18 @@ PROPS = {
         "assumptions": COMMON_ASSUME,
     },
     "C16": {
-        "suites": [("substitute", 2000, 40000), ("tau_star", 1500, 30000), ("tptp", 1500, 30000)],
+        "suites": [("substitute", 2000, 40000), ("tau_star", 1500, 30000), ("tptp", 1500, 30000), ("asp_parse", 1000, 30000), ("fol_parse", 1000, 30000)],
         "extra": c16_extra,
         "rule": "(a) panic predicates of the model vs real panics (catch_unwind) of substitute / tau* / the TPTP printer on generated inputs incl. sort-incompatible substitutions, V<usize::MAX>, isize::MIN/MAX; "
                 "(b) the real CLI on byte strings obtained by mutating the repo's example files and adversarial seeds (token deletion / duplication / swap, numeral inflation to the integer limits, operator soup, "
-                "unbalanced and deep parentheses, empty and comment-only files) through parse / translate / simplify / analyze / verify --no-proof-search: outcome class output | error+non-zero exit | panic | signal | timeout(20 s)",
+                "unbalanced and deep parentheses, empty and comment-only files) through parse / translate / simplify / analyze / verify --no-proof-search: outcome class output | error+non-zero exit | panic | signal | timeout(20 s); the deterministic part: every command on degenerate files, every output format, input from stdin, command lines that cannot be served "
+                "(missing or doubled roles, directories, unwritable --save-problems), every program and external-equivalence task of the correspondence corpus",
         "level_text": "Partial: substitute_panic_free (no panic on sort-compatible arguments, for every formula and every renaming), globals_panic_iff, tptp_panic_free, external_panic_only_overflow (the whole external-equivalence pipeline - checks, tau*, placeholder replacement, completion, simplification, outline construction, assembly - panics only on the overflow of the global-variable index; completion_of_tau_star_exists: the expect in theory_translate is unreachable) proved on the model; two crashes repaired (ca17dcd, 3401bdf); "
-                      "two crash classes remain as known findings (numerals beyond the integer type, global index overflow); stack depth, allocation and hangs are not expressible in the model and are covered by the CLI exploration only. out_of_range_refused / accepted_numerals_in_range - since fix 515e4a3 the parser refuses a text whose numerals or arities do not fit the integer types (before: panic in the tree builder), so every numeral of an accepted program fits isize; the parser models used in the correspondence are the checked ones (grammar + range check). external_never_panics / fresh_globals_always_fresh / globals_never_panic - since fix 1d6d77a the index of the fresh global variables no longer overflows (checked addition, smallest unused indices as fallback): the external pipeline reaches no panic at all.",
+                      "the two former crash classes (numerals beyond the integer type, global index overflow) are repaired too (515e4a3, 1d6d77a), one known finding remains (an output predicate of absurd arity: allocation); "
+                      "private_rename_search_terminates / private_rename_search_first_free / prop_rename_search_terminates / fresh_global_search_terminates: each of the three `while occupied.contains(candidate)` searches "
+                      "for a free name stops at the first free candidate after at most |occupied| occupied ones (the model's fuel |occupied|+1 is never what ends it), so none of them can run forever; "
+                      "stack depth and allocation are not expressible in the model and are covered by the CLI exploration only (which now also runs the whole correspondence corpus through the real command line), "
+                      "a call that does not return is the outcome (hang) of the correspondence harness. out_of_range_refused / accepted_numerals_in_range - since fix 515e4a3 the parser refuses a text whose numerals or arities do not fit the integer types (before: panic in the tree builder), so every numeral of an accepted program fits isize; the parser models used in the correspondence are the checked ones (grammar + range check). external_never_panics / fresh_globals_always_fresh / globals_never_panic - since fix 1d6d77a the index of the fresh global variables no longer overflows (checked addition, smallest unused indices as fallback): the external pipeline reaches no panic at all.",
         "level_note": PROOF_NOTE + " The pest parsers and the tree builders' integer parsing are exercised, not modelled.",
         "technique": "Lean 4 proof (panic-site predicates of the model) + differential correspondence of panics + CLI mutation exploration",
         "design_ref": "DESIGN.md 6/C16",
